@@ -5,7 +5,7 @@
    condition x threshold x direction; length prefixes), shows a lenient variant is caught, and
    exports every row as a scenario.
 2. The Go harness builds a byte stream for every row (Go's compress/zlib), plus mutated valid
-   streams, adversarial VarInts, runs of empty frames and random bytes, and runs the real
+   streams, adversarial VarInts, runs of empty frames, empty frames spread over long streams and random bytes, and runs the real
    codec.Decoder on them (all bytes available), recording per Decode call the result, which
    bytes the payload equals, the allocation, and what an independent parser sees at that position.
 3. TLC re-evaluates Frame() on the logged head bytes / zlib facts / sizes (FrameAccept_Trace.tla).
@@ -50,6 +50,7 @@ def classify(run, idx):
     thr = reset.get("thr", -1)
     cap = 2 << 20 if reset.get("dir") == "sb" else 8 << 20
     skips = 0
+    total_empty = sum(1 for x in run[:idx] if x.get("ev") == "frame" and x.get("hk") == "skip")
     fr = None
     j = idx - 1
     while j >= 0 and run[j].get("ev") == "frame":
@@ -62,6 +63,8 @@ def classify(run, idx):
         return "unknown"
     if skips > 10:
         return "empty-run>10"
+    if total_empty > 10 and fr.get("hk") in ("raw", "inflated"):
+        return "empty-total>10(runs<=10)"
     head = fr["head"]
     L, n = varint(head)
     if L is None:
